@@ -72,11 +72,18 @@ def probe_groups(mol, viol, counts):
     """Per-group clauses on the live objects: q(pK) = Q/2, bounds, monotone non-increasing."""
     conf = mol.conformations["AVR"]
     params = mol.version.parameters
+    from .. import util
+    from ..oracles import chem
+    cfg = util.parse_cfg()
     for g in conf.groups:
         if not g.titratable:
             continue
         counts["groups_probed"] = counts.get("groups_probed", 0) + 1
         Q = g.charge
+        want = chem.class_sign(g.type, g.residue_type, cfg["acid_list"], cfg["base_list"])
+        if want is not None and Q * want <= 0:
+            viol.append({"cls": "acid-base-charge-sign", "msg": "%s (type %s) is listed as %s but carries formal charge %+g" % (
+                g.label, g.type, "an acid" if want < 0 else "a base", Q)})
         for state, pk in (("folded", g.pka_value), ("unfolded", g.model_pka)):
             half = g.calculate_charge(params, ph=pk, state=state)
             if abs(half - Q / 2.0) > 1e-12:
